@@ -297,6 +297,14 @@ func (d *Data) streamRawBlock(ctx *datastore.VersionedCtx, w http.ResponseWriter
 	if err != nil {
 		return err
 	}
+	if block == nil {
+		// an unwritten block reads as label 0, as it does for every other request geometry
+		blockSize, ok := d.BlockSize().(dvid.Point3d)
+		if !ok {
+			return fmt.Errorf("block size for data %q should be 3d, not: %s", d.DataName(), d.BlockSize())
+		}
+		block = labels.MakeSolidBlock(0, blockSize)
+	}
 	if !supervoxels {
 		mapping, err := getMapping(d, ctx.VersionID())
 		if err != nil {
